@@ -18,6 +18,7 @@ import OFV.Proofs.C19Exchange
 import OFV.Proofs.C19OneNormId
 import OFV.Proofs.C19Exact0
 import OFV.Proofs.C19ThcPos
+import OFV.Proofs.C19OracleSplit
 import OFV.Proofs.C19Mono
 
 namespace OFV.C19
@@ -387,5 +388,16 @@ theorem one_norm_spec_partial_all (const : Rat) (h : List (List Rat)) (g : List 
     ∧ jwOneNorm (2 * h.length) (molOp h.length const h g) true = some (oneNorm const h g) :=
   ⟨one_norm_spec_partial 0 h.length const h g rfl hsupp symH symJ (OFV.C19Jw.jwDCHOk_zero _ _ _ _),
    one_norm_int_spec_partial 0 h.length const h g rfl hsupp symH symJ (OFV.C19Jw.jwDCHOk_zero _ _ _ _)⟩
+
+/-- **`get_one_norm_int` reduces to `get_one_norm_int_woconst`, for ALL integrals** (no symmetry, every number of
+orbitals): whenever the Spec oracle without the identity returns the Model value of `get_one_norm_int_woconst` for the
+molecular Hamiltonian, the oracle with the identity returns the Model value of `get_one_norm_int`.  (If the oracle
+without the identity returns a value at all, every trace it inspected was real; the identity trace is `4^n · htilde`.)
+So the only open part of `one_norm_spec` is the non-identity equality. -/
+theorem one_norm_int_of_woconst (const : Rat) (h : List (List Rat)) (g : List (List (List (List Rat))))
+    (hw : jwOneNorm (2 * h.length) (molOp h.length const h g) false = some (oneNormWoConst h g)) :
+    jwOneNorm (2 * h.length) (molOp h.length const h g) true = some (oneNorm const h g) := by
+  rw [OFV.C19Jw.oracle_split h.length const h g _ hw, OFV.C19P.oneNorm_split, add_comm]
+  rfl
 
 end OFV.C19
